@@ -111,3 +111,31 @@ Theorem append_reading_exact x y z : AppendV x y z <-> exists k, LibV k rel_appe
 Proof. split; [apply AppendV_LibV|intros [k H]; eapply LibV_AppendV; eauto]. Qed.
 Theorem member_reading_exact x l : MemberV x l <-> exists k, LibV k rel_member [x; l].
 Proof. split; [apply MemberV_LibV|intros [k H]; eapply LibV_MemberV; eauto]. Qed.
+Lemma LibV_Member1V : forall k x l, LibV k rel_member1 [x; l] -> Member1V x l.
+Proof.
+  induction k as [|k IH]; intros x l H; [destruct H|]. cbn [LibV] in H. revert H. rel_ids. intros H.
+  destruct H as [h [t [-> [->|[Hn H]]]]]; constructor; auto.
+Qed.
+Lemma LibV_RemberV : forall k x l o, LibV k rel_rember [x; l; o] -> RemberV x l o.
+Proof.
+  induction k as [|k IH]; intros x l o H; [destruct H|]. cbn [LibV] in H. revert H. rel_ids. intros H.
+  destruct H as [[-> ->]|[[t [-> ->]]|[h [t [w [-> [-> [Hn H]]]]]]]]; constructor; auto.
+Qed.
+Lemma LibV_DistinctV : forall k l, LibV k rel_distinct [l] -> DistinctV l.
+Proof.
+  induction k as [|k IH]; intros l H; [destruct H|]. cbn [LibV] in H. revert H. rel_ids. intros H.
+  destruct H as [->|[[a ->]|[a [b [t [-> [Hn [H1 H2]]]]]]]]; constructor; auto.
+Qed.
+Lemma LibV_PermuteV : forall k a b, LibV k rel_permute [a; b] -> PermuteV a b.
+Proof.
+  induction k as [|k IH]; intros a b H; [destruct H|]. cbn [LibV] in H. revert H. rel_ids. intros H.
+  destruct H as [[-> ->]|[x [xs [ys [-> [H1 H2]]]]]]; [constructor|]. econstructor; [apply IH, H1|eapply LibV_RemberV, H2].
+Qed.
+Theorem member1_reading_exact x l : Member1V x l <-> exists k, LibV k rel_member1 [x; l].
+Proof. split; [apply Member1V_LibV|intros [k H]; eapply LibV_Member1V; eauto]. Qed.
+Theorem rember_reading_exact x l o : RemberV x l o <-> exists k, LibV k rel_rember [x; l; o].
+Proof. split; [apply RemberV_LibV|intros [k H]; eapply LibV_RemberV; eauto]. Qed.
+Theorem distinct_reading_exact l : DistinctV l <-> exists k, LibV k rel_distinct [l].
+Proof. split; [apply DistinctV_LibV|intros [k H]; eapply LibV_DistinctV; eauto]. Qed.
+Theorem permute_reading_exact a b : PermuteV a b <-> exists k, LibV k rel_permute [a; b].
+Proof. split; [apply PermuteV_LibV|intros [k H]; eapply LibV_PermuteV; eauto]. Qed.
